@@ -302,7 +302,10 @@ class Interp:
                 for name, cell in zip(fn.__code__.co_freevars, fn.__closure__):
                     env.vars[name] = cell.cell_contents
             defaults = list(fn.__defaults__ or ())
-            return self.call_ast(node, env, filename, fn.__qualname__.replace("<locals>.", ""), args, kwargs, defaults, dict(fn.__kwdefaults__ or {}))
+            r = self.call_ast(node, env, filename, fn.__qualname__.replace("<locals>.", ""), args, kwargs, defaults, dict(fn.__kwdefaults__ or {}))
+            if isinstance(r, SV) and _term_size(r.t, 25) >= 25:
+                r = SV(self.ctx.bind(r.t, fn.__name__))
+            return r
         if isinstance(fn, type) and getattr(fn, "__module__", "") and self.session.is_repo_class(fn) and (has_symbolic(args) or has_symbolic(kwargs) or self.session.force_symbolic_class(fn)):
             obj = SObj(fn)
             init = getattr(fn, "__init__", None)
@@ -1174,6 +1177,16 @@ class OpaqueCallable:
 
 # ----------------------------------------------------------------------------- helpers
 _CONTAINER_METHODS = {"get", "keys", "values", "items", "pop", "append", "extend", "copy", "update", "setdefault", "insert", "clear"}
+
+
+def _term_size(t, cap):
+    n = 0
+    todo = [t]
+    while todo and n < cap:
+        x = todo.pop()
+        n += 1
+        todo.extend(x.children())
+    return n
 
 
 def _unbox0(r):
